@@ -1,6 +1,7 @@
 package main
 
 import (
+	"github.com/ChrisTrenkamp/xsel"
 	"fmt"
 	"strings"
 )
@@ -31,6 +32,10 @@ func randomEnv(rn *Runner, d *Doc) *Env {
 		case r.Chance(4, 5):
 			env.NS = append(env.NS, NSBind{p, pick(r, uris)})
 		}
+	}
+	// a binding for the empty prefix means nothing in XPath 1.0: unprefixed names are in no namespace
+	if r.Chance(1, 3) {
+		env.NS = append(env.NS, NSBind{"", pick(r, uris)})
 	}
 	mkVal := func() VarVal {
 		switch r.Intn(4) {
@@ -275,6 +280,53 @@ func famC11(rn *Runner) {
 						rn.Report(&Replay{Family: "document-prefixes", Clause: "result does not depend on the prefixes used in the document", Kind: "query", Events: d2.Events,
 							Start: start.String(), Env: env, Text: q.Text, ExprSx: SxExpr(e), Doc: showEvents(d2.Events), Impl: r3, Model: r1, Note: "model column = result on the document with the original prefixes"},
 							fmt.Sprintf("%s gives %s on the document and %s after renaming its namespace prefixes", q.Text, r1, r3))
+					}
+				}
+			}
+		}
+		// "a variable evaluates to exactly the bound value" - also the second time, also when the value is a node-set the
+		// library itself returned (with spare capacity) and the variable has meanwhile been an operand
+		{
+			env := stdEnv()
+			g := NewExprGen(rn.R.Fork(), d, env)
+			for i := 0; i < rn.Scale(30, 120) && !rn.TooMany(); i++ {
+				ea := g.NodeSet(1, 2)
+				gr, err := buildCached(Render(ea, RenderOpts{}))
+				if err != nil {
+					continue
+				}
+				res, xerr := xsel.Exec(d.Root, gr, env.Settings(d.Root)...)
+				A, ok := res.(xsel.NodeSet)
+				if !ok || xerr != nil || len(A) == 0 {
+					continue
+				}
+				var ps []Path
+				for _, c := range A {
+					p, _ := pathOf(c)
+					ps = append(ps, p)
+				}
+				env2 := &Env{NS: env.NS, Vars: []VarBind{{"", "held", VarVal{Kind: "nodes", Nodes: ps}}}}
+				settings := append(env.Settings(d.Root), xsel.WithVariable("held", A))
+				hv := &EVar{RawQ{Local: "held"}}
+				other := g.NodeSet(1, 1)
+				var trace []string
+				for _, e := range []Expr{hv, bin("|", hv, other), hv, &EFilter{E: hv, Preds: []Expr{call("last")}}, call("count", bin("|", hv, &EPath{Abs: true})), hv, call("string", hv)} {
+					text := Render(e, RenderOpts{})
+					gr, err := buildCached(text)
+					if err != nil {
+						continue
+					}
+					r2, x2 := xsel.Exec(d.Root, gr, settings...)
+					impl := projectResult(r2, x2)
+					model := rn.M.Ask((&QCase{Doc: d, Start: Path{}, Env: env2, E: e}).ModelCmd())
+					trace = append(trace, text)
+					rn.Eval("heldvar|"+fmt.Sprint(d.ID)+Render(ea, RenderOpts{})+strings.Join(trace, ";"), len(trace) > 1)
+					if !agree(impl, model) && !rn.TooMany() {
+						rn.Report(&Replay{Family: "variable-keeps-its-value", Clause: "a variable evaluates to exactly the bound value, every time", Kind: "query", Events: d.Events, Start: ".", Env: env2,
+							Text: text, ExprSx: SxExpr(e), Doc: showEvents(d.Events), Impl: impl, Model: model,
+							Note: fmt.Sprintf("$held = the node-set returned by %s; evaluated in order: %s", Render(ea, RenderOpts{}), strings.Join(trace, " ; "))},
+							fmt.Sprintf("with $held the result of %s, after [%s]: %s gives %s, expected %s", Render(ea, RenderOpts{}), strings.Join(trace, " ; "), text, impl, model))
+						break
 					}
 				}
 			}
